@@ -33,7 +33,9 @@ PROPERTY = "C11"
 RULE = ("generated type-system documents: declared content (6 kinds, wrappers, defaults of every input kind, descriptions, "
         "deprecations, custom directives + applications, schema block / default roots, recursive inputs) split arbitrarily over "
         "extend blocks; ALL definition orders for documents of <=4 definitions, sampled orders otherwise; ignore_extensions on/off; "
-        "additional_types; 38 labelled single-defect invalid documents. non-trivial = distinct document text that was built "
+        "additional_types; 38 labelled single-defect invalid documents; the public extend_schema(build(A), B, strict): generated B (new types, "
+        "extensions of old and new types in every order) and a deterministic block of 36 named extension documents x strict/lax (one per "
+        "branch of _collect_extensions and per rejection of the extension pass). non-trivial = distinct document text that was built "
         "(>=2 definitions) or rejected after parsing")
 ASSUMPTIONS = [
     "type registry and directive registry are compared as sets (sorted by name): the property does not state an order of schema.types",
@@ -52,8 +54,12 @@ ASSUMPTIONS = [
 TRUSTED = [
     "gen/sdl.py: ref_coerce (reference literal coercion), declared (specification fold in Python), doc_json (AST -> wire format)",
     "float()/repr() of float literals are computed in Python and shipped with the literal (`f`)",
+    "public extend_schema: the live types of the schema being extended are represented in the model by the merged SDL definitions they "
+    "were built from (schemas assembled from Python objects are outside the model); `_collect_extensions` is also read directly "
+    "(private function) to compare WHAT it keeps with the model's collectExtensions",
 ]
-EXPLANATION = "model = Sdl.lean (collect, build, extend, type map closure); spec = Spec/SdlSpec.lean (Declared, SdlValid)"
+EXPLANATION = ("model = Sdl.lean (collect, build, extend, type map closure) + SdlExtend.lean (public extend_schema: _collect_extensions "
+               "strict/lax, new definitions, roots kept); spec = Spec/SdlSpec.lean (Declared, SdlValid)")
 
 
 # ---------------------------------------------------------------------------
